@@ -9,7 +9,7 @@ CHECKS = {
  "C01": ("exploration",
          "runtime monitor: capturing appenders + independent routing reference model over generated configurations",
          "Every (configuration, target, level) probe logs through the real Logger and the multiset of appenders that received the record is compared with a routing model re-implemented from the property statement; each configuration is built under three declaration orders. Held means: no disagreement on the probes executed (counts in the evidence). Routing has no schedule or crash dimension, so wide randomised exploration with an exact oracle is the right level.",
-         "Trusted: the harness reference model (routing.rs), the log crate's Record builder. Names come from a small component alphabet; <=24 loggers.",
+         "Trusted: the harness reference model (routing.rs), the log crate's Record builder. Names come from a small component alphabet, <=24 loggers, plus chains 100..3000 components deep.",
          "DESIGN.md §4 C01"),
  "C02": ("exploration",
          "runtime monitor: Log::enabled / max level / log! macro deliveries vs routing reference model; facade observed in child processes over reconfiguration histories",
@@ -23,13 +23,13 @@ CHECKS = {
          "DESIGN.md §4 C03"),
  "C13": ("exploration",
          "runtime monitor: reference well-formedness + error-set oracle over exhaustive logger names and generated builder inputs; built configs installed and probed",
-         "build/build_lossy are run on every logger name over {a,b,:} up to length 6 and on generated builder inputs with duplicates, ill-formed names and dangling references; acceptance, the named errors (required subset, no innocent item), the lossy result (accessor view) and the routing of every returned Config (installed in a private Logger, probed under a panic trap) are compared with a reference model written from the statement.",
+         "build/build_lossy are run on every logger name over {a,b,:} up to length 6 and over {é,日,:} up to length 5, on names with colon runs up to 65538, and on generated builder inputs with duplicates, ill-formed names and dangling references; acceptance, the named errors (required subset, no innocent item), the lossy result (accessor view) and the routing of every returned Config (installed in a private Logger, probed under a panic trap) are compared with a reference model written from the statement.",
          "Trusted: reference model in c13.rs. Names with colon runs of even length >= 4 and dangling references inside rejected loggers are don't-care.",
          "DESIGN.md §4 C13"),
  "C09": ("exploration",
          "runtime monitor: AST-generated well-formed patterns rendered by an independent reference evaluator, compared with the captured bytes and style calls of the real encoder",
          "Patterns are generated from an AST (all formatters, both aliases, escapes in text and arguments, nesting, specs, dates, MDC), printed with random alias/escape choices and encoded for random records through a capturing encode::Write; text and style events must equal the reference renderer's output (default-format dates are parsed back and bracketed by the call). The grammar is recursive and unbounded, so sampled exploration with an exact oracle is the achievable level.",
-         "Trusted: pattern_model.rs (printer + renderer), chrono's strftime for expected date text. Two grammar ambiguities are never generated (`))` inside an argument, empty `{x:}` spec before '<'/'>'). Dev profile by default; thorough repeats in release for {R(..)}.",
+         "Trusted: pattern_model.rs (printer + renderer), chrono's strftime for expected date text. Two grammar ambiguities are never generated (`))` inside an argument, empty `{x:}` spec before '<'/'>'). Both build profiles in both tiers ({D(..)} renders in dev, {R(..)} in release).",
          "DESIGN.md §4 C09"),
  "C10": ("exploration",
          "runtime monitor: reference pad(cut(text,M),m) law over generated specs/texts, each case encoded under four chunkings incl. short-write sinks that split code points",
@@ -39,7 +39,7 @@ CHECKS = {
  "C11": ("exploration",
          "runtime monitor: panic trap around PatternEncoder::new and encode over exhaustive syntax-alphabet strings, edits of valid patterns and a malformed-tail catalogue with an {ERROR} oracle",
          "Exhaustive over two 12-symbol alphabets up to length 6/5 (quick) or 7/6 (thorough), plus single edits of generated valid patterns, random Unicode strings, and well-formed-prefix + malformed-tail compositions whose output must start with the prefix's reference rendering and then show {ERROR: or return Err. No panic is tolerated anywhere.",
-         "Trusted: panic hook capture; reference renderer for the prefix. encode() skipped only for representable explicit widths in (10^6, 2^64). Dev profile by default (overflow checks on); thorough repeats in release.",
+         "Trusted: panic hook capture; reference renderer for the prefix. encode() skipped only for representable explicit widths in (10^6, 2^64). Both build profiles in both tiers (overflow checks on / off).",
          "DESIGN.md §4 C11"),
  "C12": ("exploration",
          "runtime monitor: own RFC 8259 parser (serde_json as second opinion) over the captured line of hostile generated records, field-by-field round-trip oracle",
@@ -146,7 +146,7 @@ def main():
             "name": "l4v",
             "path": "/verif/harness",
             "serves_properties": [c["property_id"] for c in checks],
-            "kind_free_text": "Rust harness linking the real log4rs from /repo: workload generators, reference-model oracles over recorded events, invariant checks at verif_hooks points, panic traps, child processes on ptys/pipes, Miri runs of the same monitors",
+            "kind_free_text": "Rust harness linking the real log4rs from /repo: workload generators, reference-model oracles over recorded events, invariant checks at verif_hooks points, panic traps, child processes on ptys/pipes, inotify event logs, Miri runs of the same monitors; every check runs its workload in a dev-profile and in a release-profile build",
         }],
         "checks": checks,
         "not_applicable": na,
